@@ -5,6 +5,7 @@ import (
 
 	fpgo "github.com/TeaEntityLab/fpGo/v2"
 	"github.com/TeaEntityLab/fpGo/v2/zzverif/vsched"
+	"verifharness/lib"
 	"verifharness/lib/e1"
 )
 
@@ -298,6 +299,65 @@ func ctorScenario(bound int) *vsched.Scenario {
 	}
 }
 
+// payloadScenario: the values exchanged are opaque to the coroutine: the initial value given to StartWithVal
+// (here nil / a typed nil pointer) reaches the first YieldRef, the x of every request and the y of every
+// answer arrive as the very values that were passed (pointer identity, nil-ness, sign of zero).
+func payloadScenario(initial interface{}, bound int) *vsched.Scenario {
+	fam := "payload"
+	pay := lib.Payloads()
+	return &vsched.Scenario{
+		Name:  "payload/initial=" + lib.Show(initial),
+		Bound: bound,
+		Body: func() {
+			var target *fpgo.CorDef[interface{}]
+			target = fpgo.CorNewGenerics[interface{}](func() {
+				for i := 0; i <= len(pay); i++ {
+					y := interface{}(i)
+					if i < len(pay) {
+						y = pay[len(pay)-1-i]
+					}
+					x := target.YieldRef(y)
+					vsched.Note("target-saw", i, lib.Show(x))
+				}
+			})
+			var caller *fpgo.CorDef[interface{}]
+			caller = fpgo.CorNewGenerics[interface{}](func() {
+				for j, x := range pay {
+					vsched.Note("answer", j, lib.Show(caller.YieldFrom(target, x)))
+				}
+			})
+			target.StartWithVal(initial)
+			caller.Start()
+		},
+		Check: func(r *vsched.Result) []vsched.Failure {
+			fs := e1.Basic("C14", fam, r, nil)
+			if len(fs) > 0 {
+				return fs
+			}
+			// the target sees: initial, x0, x1, ...; request j (the (j+1)-th value taken) is answered with the y yielded then
+			if e1.Count(r, "target-saw", 0, lib.Show(initial)) != 1 {
+				fs = append(fs, e1.Fail("C14|"+fam+"|start-with-val", "StartWithVal(%s): the first YieldRef did not return it: %v", lib.Show(initial), r.Events))
+				return fs
+			}
+			for j, x := range pay {
+				if e1.Count(r, "target-saw", j+1, lib.Show(x)) != 1 {
+					fs = append(fs, e1.Fail("C14|"+fam+"|request-value", "request %d carried %s, the target's YieldRef returned something else: %v", j, lib.Show(x), r.Events))
+					return fs
+				}
+				var y interface{} = j + 1
+				if j+1 < len(pay) {
+					y = pay[len(pay)-1-(j+1)]
+				}
+				if e1.Count(r, "answer", j, lib.Show(y)) != 1 {
+					fs = append(fs, e1.Fail("C14|"+fam+"|answer-value", "request %d must be answered with the yielded value %s: %v", j, lib.Show(y), r.Events))
+					return fs
+				}
+			}
+			return fs
+		},
+	}
+}
+
 func scenarios(tier string) []*vsched.Scenario {
 	b := 2
 	if tier == "thorough" {
@@ -312,7 +372,7 @@ func scenarios(tier string) []*vsched.Scenario {
 		pairScenario("fixed", 2, 2, true, 3, true),   // delay bounding: the pre-emption-bounded space of 2x2 requests is large
 		pairScenario("echo", 3, 1, false, 3, true),
 		pairScenario("fixed", 7, 1, false, 1, true), // 7 pending requests at once (> buffer): delay bounding
-		startWithValScenario(false, b), startWithValScenario(true, b), doNotationScenario(b), ctorScenario(1))
+		startWithValScenario(false, b), startWithValScenario(true, b), doNotationScenario(b), ctorScenario(1), payloadScenario(nil, 0), payloadScenario((*int)(nil), 0), payloadScenario(0, 0))
 	if tier == "thorough" {
 		out = append(out, pairScenario("accumulate", 2, 2, false, 1, false), pairScenario("fixed", 2, 2, true, 1, false), pairScenario("echo", 3, 1, false, 1, false), pairScenario("fixed", 3, 2, true, 3, true),
 			pairScenario("echo", 4, 1, false, 2, false), pairScenario("fixed", 8, 1, false, 2, true), pairScenario("accumulate", 7, 1, true, 2, true))
